@@ -175,11 +175,22 @@ class RecordManager:
                 " In the future this will fail"
             )
 
-        self.listeners.add(listener)
-
         if question is None:
+            self.listeners.add(listener)
             return
 
+        # Records that expired but were not reaped by the periodic cleanup
+        # yet are not replayed to the new listener below. Left in the cache
+        # they would make a later refresh of the same record look like an
+        # update of something the listener already knows, so it would never
+        # be told about it. Reap them first, the way the cleanup does.
+        now = current_time_millis()
+        expired = self.cache.async_expire(now)
+        if expired:
+            self.async_updates(now, [RecordUpdate(record, record) for record in expired])
+            self.async_updates_complete(False)
+
+        self.listeners.add(listener)
         questions = [question] if isinstance(question, DNSQuestion) else question
         self._async_update_matching_records(listener, questions)
 
